@@ -63,29 +63,34 @@ Proof.
   apply xsum_ext. intros i Hi. apply per_square; [apply In_sq64_lt; exact Hi | apply Hwf].
 Qed.
 
-Lemma kind_fold_gen b sd (lk : list piece) h1 :
-  fold_left (fun acc k => fold_left (fun acc sq => N.lxor acc (piece_value sq k sd)) (bits_of (bits_for_piece b k sd)) acc) lk h1
-  = N.lxor h1 (xsum (fun k => xsum (fun sq => piece_value sq k sd) (bits_of (bits_for_piece b k sd))) lk).
-Proof.
-  revert h1. induction lk as [|k lk IHk]; intros h1; cbn [fold_left].
-  - now rewrite xsum_nil, N.lxor_0_r.
-  - rewrite IHk, xsum_cons, <- N.lxor_assoc. f_equal. apply fold_xor_shift.
-Qed.
+Section FoldGen.
+  Variable pv : N -> piece -> bool -> N.
+  Variable bits : piece -> bool -> list N.
 
-Lemma side_fold_gen b (l : list bool) h0 :
-  fold_left (fun acc side => fold_left (fun acc k =>
-     fold_left (fun acc sq => N.lxor acc (piece_value sq k side)) (bits_of (bits_for_piece b k side)) acc) PIECE_ALL acc) l h0
-  = N.lxor h0 (xsum (fun s0 => xsum (fun k => xsum (fun sq => piece_value sq k s0) (bits_of (bits_for_piece b k s0))) PIECE_ALL) l).
-Proof.
-  revert h0. induction l as [|sd l IH]; intros h0; cbn [fold_left].
-  - now rewrite xsum_nil, N.lxor_0_r.
-  - rewrite IH, xsum_cons, <- N.lxor_assoc. f_equal. apply kind_fold_gen.
-Qed.
+  Lemma kind_fold_gen sd (lk : list piece) h1 :
+    fold_left (fun acc k => fold_left (fun acc sq => N.lxor acc (pv sq k sd)) (bits k sd) acc) lk h1
+    = N.lxor h1 (xsum (fun k => xsum (fun sq => pv sq k sd) (bits k sd)) lk).
+  Proof.
+    revert h1. induction lk as [|k lk IHk]; intros h1; cbn [fold_left].
+    - now rewrite xsum_nil, N.lxor_0_r.
+    - rewrite IHk, xsum_cons, <- N.lxor_assoc. f_equal. apply fold_xor_shift.
+  Qed.
+
+  Lemma side_fold_gen (lk : list piece) (l : list bool) h0 :
+    fold_left (fun acc side => fold_left (fun acc k =>
+       fold_left (fun acc sq => N.lxor acc (pv sq k side)) (bits k side) acc) lk acc) l h0
+    = N.lxor h0 (xsum (fun s0 => xsum (fun k => xsum (fun sq => pv sq k s0) (bits k s0)) lk) l).
+  Proof.
+    revert h0. induction l as [|sd l IH]; intros h0; cbn [fold_left].
+    - now rewrite xsum_nil, N.lxor_0_r.
+    - rewrite IH, xsum_cons, <- N.lxor_assoc. f_equal. apply kind_fold_gen.
+  Qed.
+End FoldGen.
 
 Lemma z_from_piece_board_spec b s st : WFb b ->
   z_from_piece_board b s st = N.lxor (header_part s st) (board_part b).
 Proof.
   intros Hwf. unfold z_from_piece_board. cbv zeta.
-  rewrite side_fold_gen, board_fold_spec by exact Hwf.
+  rewrite (side_fold_gen piece_value (fun k sd => bits_of (bits_for_piece b k sd))), board_fold_spec by exact Hwf.
   unfold header_part. destruct s; reflexivity.
 Qed.
